@@ -37,8 +37,8 @@ def rule_G1(ctx):
                     continue
                 lhs = unparse(n.left)
                 is_item = ("item" in lhs and "status" in lhs) or (
-                    lhs in ("x",) and _in_items_lambda(n)) or (
-                    lhs.replace('"', "'") == "x[1]['status']" and _in_items_lambda(n, "all_items"))
+                    isinstance(n.left, ast.Name) and _in_items_lambda(n)) or (
+                    lhs.replace('"', "'").endswith("[1]['status']") and _in_items_lambda(n, "all_items"))
                 if not is_item:
                     continue
                 try:
@@ -72,13 +72,17 @@ def rule_G1(ctx):
 
 
 def _in_items_lambda(n, over="items_status"):
+    """The comparison is the predicate of a filter(lambda ...) or of a comprehension over the
+    item statuses."""
     p = getattr(n, "_parent", None)
-    while p is not None and not isinstance(p, ast.Lambda):
+    while p is not None and not isinstance(p, (ast.Lambda, ast.comprehension, ast.stmt)):
         p = getattr(p, "_parent", None)
-    if p is None:
-        return False
-    call = getattr(p, "_parent", None)
-    return isinstance(call, ast.Call) and len(call.args) == 2 and over in unparse(call.args[1])
+    if isinstance(p, ast.Lambda):
+        call = getattr(p, "_parent", None)
+        return isinstance(call, ast.Call) and len(call.args) == 2 and over in unparse(call.args[1])
+    if isinstance(p, ast.comprehension):
+        return over in unparse(p.iter)
+    return False
 
 
 # ====================================================================== S1b
@@ -125,9 +129,19 @@ def rule_S1b(ctx):
     if ser is None:
         raise AnalysisError("WorkflowConductor.serialize vanished")
     dicts = [n for n in ast.walk(ser.node) if isinstance(n, ast.Dict)]
-    if not dicts:
-        raise AnalysisError("WorkflowConductor.serialize builds no dict display")
-    d = dicts[0]
+    pairs = None
+    if dicts:
+        d = dicts[0]
+        pairs = list(zip(d.keys, d.values))
+    else:
+        for n in ast.walk(ser.node):
+            if isinstance(n, ast.Call) and isinstance(n.func, ast.Name) and n.func.id == "dict" \
+                    and n.keywords:
+                d = n
+                pairs = [(ast.Constant(value=k.arg), k.value) for k in n.keywords]
+                break
+    if pairs is None:
+        raise AnalysisError("WorkflowConductor.serialize builds no dict")
     forced = False
     # statements before the dict (e.g. state = self.workflow_state.serialize())
     for s in ser.node.body:
@@ -135,7 +149,7 @@ def rule_S1b(ctx):
             break
         if _forces_init(prog, wc, s, "workflow_state"):
             forced = True
-    for k, v in zip(d.keys, d.values):
+    for k, v in pairs:
         reads = _reads_attr(prog, wc, v, written)
         key = unparse(k) if k is not None else "**"
         inst = ("serialize", key)
